@@ -57,10 +57,10 @@ Definition is_emit_of (e : event) (t : tree) : bool :=
 
 (* ---- the deliberate source changes *)
 Definition is_decl (t : tree) : bool := match t with T k _ _ => N.eqb k kGlobal || N.eqb k kNonlocal | _ => false end.
+(* a function body (or a nested block) left with nothing but a docstring and / or declarations is given a `pass` *)
+Definition or_pass (l : list tree) : list tree := match l with [] => [T kPass [] []] | _ => l end.
 Definition is_docstring (t : tree) : bool :=
   match t with T k [] [[T kc (SStr _ :: _) _]] => N.eqb k kExpr && N.eqb kc kConstant | _ => false end.
-(* a function body left with nothing but a docstring and / or declarations is given a `pass` (it is bracketed like any other body) *)
-Definition or_pass (l : list tree) : list tree := match l with [] => [T kPass [] []] | _ => l end.
 Definition hoist (body : list tree) : list tree :=
   match body with
   | d :: rest => if is_docstring d then d :: filter is_decl rest ++ or_pass (filter (fun s => negb (is_decl s)) rest)
@@ -68,6 +68,36 @@ Definition hoist (body : list tree) : list tree :=
   | [] => []
   end.
 Definition hoist_loop (body : list tree) : list tree := filter is_decl body ++ filter (fun s => negb (is_decl s)) body.
+(* all declarations of a function are hoisted to its top: the direct ones first, then those inside nested blocks, in source order
+   (nested function and class definitions are scopes of their own); a block they leave empty gets a `pass` *)
+Definition is_scope_kind (k : N) : bool := N.eqb k kFunctionDef || N.eqb k kAsyncFunctionDef || N.eqb k kClassDef.
+Fixpoint deep_decls (t : tree) {struct t} : list tree :=
+  match t with
+  | NoneNode => []
+  | T k sc fs =>
+      if is_decl t then [t] else if is_scope_kind k then [] else
+      (fix gof (l : list (list tree)) : list tree := match l with [] => [] | f :: l' =>
+         (fix gol (u : list tree) : list tree := match u with [] => [] | x :: u' => deep_decls x ++ gol u' end) f ++ gof l' end) fs
+  end.
+Fixpoint deep_strip (t : tree) {struct t} : tree :=
+  match t with
+  | NoneNode => NoneNode
+  | T k sc fs =>
+      if is_scope_kind k then t else
+      T k sc ((fix gof (l : list (list tree)) : list (list tree) := match l with [] => [] | f :: l' =>
+                 (let f' := (fix gol (u : list tree) : list tree :=
+                               match u with [] => [] | x :: u' => if is_decl x then gol u' else deep_strip x :: gol u' end) f in
+                  if existsb is_decl f then or_pass f' else f') :: gof l' end) fs)
+  end.
+Definition hoist_fun (orig normalised : list tree) : list tree :=
+  let direct (b : list tree) := filter is_decl b in
+  let others (b : list tree) := filter (fun s => negb (is_decl s)) b in
+  match orig, normalised with
+  | d :: rest, d' :: rest' =>
+      if is_docstring d then d' :: direct rest ++ flat_map deep_decls (others rest) ++ or_pass (map deep_strip (others rest'))
+      else direct orig ++ flat_map deep_decls (others orig) ++ or_pass (map deep_strip (others normalised))
+  | _, _ => normalised
+  end.
 Definition none_const : tree := T kConstant [SNone; SNone] [].
 Definition load_ctx : tree := T kLoad [] [].
 Definition norm_slice_post (t : tree) : tree :=        (* applied to an already normalised slice expression *)
@@ -91,9 +121,9 @@ Fixpoint norm (t : tree) {struct t} : tree :=
         | _ => T k sc fs'
         end
       else if N.eqb k kFunctionDef || N.eqb k kAsyncFunctionDef then
-        match fs' with
-        | a :: b :: rest => T k sc (a :: hoist b :: rest)
-        | _ => T k sc fs'
+        match fs, fs' with
+        | _ :: b0 :: _, a :: b :: rest => T k sc (a :: hoist_fun b0 b :: rest)
+        | _, _ => T k sc fs'
         end
       else if N.eqb k kFor || N.eqb k kAsyncFor then
         match fs' with
